@@ -612,23 +612,26 @@ class Normalizer(object):
             except AnalysisError:
                 return False
 
-        def plain(e):
+        def plain(e, first=False):
+            # `first`: evaluated before any stage has run, so what it reads
+            # cannot have been changed by an earlier stage
             if isinstance(e, (ast.Constant, ast.Name)):
                 return True
             if isinstance(e, ast.Attribute):
-                return e.attr not in self.unstable and plain(e.value)
+                return (first or e.attr not in self.unstable) and \
+                    plain(e.value, first)
             return False
 
-        def stage(e):
-            if plain(e) and not isinstance(e, ast.Constant):
+        def stage(e, first=False):
+            if plain(e, first) and not isinstance(e, ast.Constant):
                 return True
             if isinstance(e, ast.Lambda):
                 return True
             return isinstance(e, ast.Call) and isinstance(
                 e.func, (ast.Name, ast.Attribute)) and \
                 ext(e.func) == 'functools.partial' and all(
-                    plain(a) for a in e.args) and all(
-                        k.arg is not None and plain(k.value)
+                    plain(a, first) for a in e.args) and all(
+                        k.arg is not None and plain(k.value, first)
                         for k in e.keywords)
 
         def is_stage_loop(st):
@@ -639,7 +642,7 @@ class Normalizer(object):
                 return False
             elts = st.iter.elts
             if not (1 <= len(elts) <= 6) or len(st.body) > 4 or \
-                    not all(stage(e) for e in elts):
+                    not all(stage(e, i == 0) for i, e in enumerate(elts)):
                 return False
             if contains(st.body, (ast.Break, ast.Continue, ast.Return,
                                   ast.Yield, ast.YieldFrom)):
@@ -767,6 +770,19 @@ class Normalizer(object):
 
             def visit_Call(self, n):
                 self.generic_visit(n)
+                if isinstance(n.func, ast.IfExp):
+                    # (A if c else B)(x) is A(x) if c else B(x): the test
+                    # is evaluated first either way
+                    f = n.func
+                    changed[0] = True
+                    return ast.copy_location(ast.IfExp(
+                        test=f.test,
+                        body=self.visit_Call(ast.copy_location(ast.Call(
+                            func=f.body, args=copy.deepcopy(n.args),
+                            keywords=copy.deepcopy(n.keywords)), n)),
+                        orelse=self.visit_Call(ast.copy_location(ast.Call(
+                            func=f.orelse, args=copy.deepcopy(n.args),
+                            keywords=copy.deepcopy(n.keywords)), n))), n)
                 for i, a in enumerate(n.args):
                     if not isinstance(a, ast.Starred):
                         continue
